@@ -331,6 +331,9 @@ class Runs:
             c.extra["panicking_callbacks"] = json.loads(p.stdout.strip().splitlines()[-1])
         except Exception:
             raise vcheck.Broken("vh drive timerpanic: no summary line:\n%s" % p.stdout[-1000:])
+        if os.environ.get("VERIF_KEEP_PANIC_TRACE"):      # debugging aid
+            import shutil
+            shutil.copy(out, os.environ["VERIF_KEEP_PANIC_TRACE"])
         self.traces.append((out, label))
 
     # ------------------------------------------------------------------ verdicts
